@@ -1503,7 +1503,28 @@ pub trait QueryBuilder:
         if right_paren {
             write!(sql, "(").unwrap();
         }
-        self.prepare_simple_expr(right, sql);
+        match right {
+            // The bounds of BETWEEN are encoded as `low AND high`. A bound that is itself a
+            // logical, comparison, IN, LIKE or IS expression must keep its own parentheses,
+            // otherwise its operator (or the AND) is taken for part of the BETWEEN.
+            SimpleExpr::Binary(low, _, high) if drop_right_between_hack => {
+                for (i, bound) in [low, high].into_iter().enumerate() {
+                    if i > 0 {
+                        write!(sql, " AND ").unwrap();
+                    }
+                    let drop_bound_paren =
+                        self.inner_expr_well_known_greater_precedence(bound, &op_as_oper);
+                    if !drop_bound_paren {
+                        write!(sql, "(").unwrap();
+                    }
+                    self.prepare_simple_expr(bound, sql);
+                    if !drop_bound_paren {
+                        write!(sql, ")").unwrap();
+                    }
+                }
+            }
+            _ => self.prepare_simple_expr(right, sql),
+        }
         if right_paren {
             write!(sql, ")").unwrap();
         }
